@@ -4,6 +4,7 @@ import OmplModel.Proofs.GridCoords
 import OmplModel.Proofs.DiscProps
 import OmplModel.Proofs.DiscReal
 import OmplModel.Proofs.KPIECE1
+import OmplModel.Proofs.LBKPIECE1
 /-!
 # C13 — grid discretizations track cells, neighbours, borders and components exactly
 
@@ -422,5 +423,69 @@ example (cfg : KPIECE1.Cfg S α) (script : List (Draw S α)) :
   constructor <;> rfl
 
 end Kpiece
+
+/-! ## LBKPIECE1 (lazy bidirectional KPIECE; the user of `Discretization::removeMotion`)
+
+Model `OmplModel.LBKPIECE1` (Model/LBKPIECE1.lean): both trees in one arena of motions (state, parent index, valid flag,
+children, tree, ghost `alive`), generic over every oracle.  "Every script" = every list of per-iteration draws. -/
+section Lbkpiece
+open OmplModel.Disc OmplModel.LBKPIECE1 OmplModel.PlannerReport
+variable {S α : Type} [Num α] [HasLog α]
+
+/-- **The `valid` flag is sound**, for every configuration, start set and script (every interruption point, across
+every lazy validation, subtree removal and re-add): a motion without parent is a root -- flagged valid, its state a
+problem start (start tree) or a goal sample (goal tree) that passed the input filter; any other motion's parent was
+created before it, and if its `valid` flag is set then the edge from the parent is justified (`Link`): `checkMotion(parent,
+motion)` was answered `true` (that is the only place the flag is set, inside `isPathValid`), or the motion is the
+re-added `lastValid.first` of a motion from that parent that failed with `lastValid.second > minValidPathFraction_`. -/
+theorem lbkpiece_valid_flag_sound (cfg : LBKPIECE1.Cfg S α) (starts : Array S) (script : List (LBKPIECE1.Draw S α)) :
+    LBKPIECE1.ArInv cfg starts (LBKPIECE1.solve cfg starts script).final.ar :=
+  LBKPIECE1.solve_inv cfg starts script
+
+/-- one successful `isPathValid` walk: the arena invariant is kept, nothing is removed or added, no flag is cleared,
+and afterwards EVERY motion of the walked chain that has a parent is flagged valid -- lazy validation is complete for
+the chain it answers `true` for (with `lbkpiece_valid_flag_sound`: every edge of that chain is justified). -/
+theorem lbkpiece_isPathValid_complete (cfg : LBKPIECE1.Cfg S α) (starts : Array S) (t : Bool) (ids : List Nat)
+    (st : LBKPIECE1.St S α) (h : LBKPIECE1.ArInv cfg starts st.ar) (ht : (validateFrom cfg t ids st).1 = true) :
+    LBKPIECE1.ArInv cfg starts (validateFrom cfg t ids st).2.ar ∧
+    LBKPIECE1.Frame st.ar (validateFrom cfg t ids st).2.ar ∧
+    ∀ i ∈ ids, ∀ m, (validateFrom cfg t ids st).2.ar[i]? = some m → m.parent ≠ none → m.valid = true :=
+  ⟨(validateFrom_inv t ids st h).1, ((validateFrom_inv t ids st h).2 ht).1, ((validateFrom_inv t ids st h).2 ht).2.2⟩
+
+/-- `removeMotion` (with its recursion over the children) never changes a state, a parent index, a tree membership or
+a `valid` flag: it only clears `alive` flags, edits `children` lists and appends free events. -/
+theorem lbkpiece_remove_subtree_partial (cfg : LBKPIECE1.Cfg S α) (t : Bool) (fuel i : Nat) (detach : Bool)
+    (st : LBKPIECE1.St S α) : LBKPIECE1.FrameV st.ar (removeSubtree cfg t fuel i detach st).ar :=
+  removeSubtree_frame cfg t fuel i detach st
+
+/-- **Reports (partial)**: the status is EXACT_SOLUTION exactly when `addSolutionPath` was called; INVALID_START /
+INVALID_GOAL / TIMEOUT add nothing.
+Not proved here (checked by the oracle and the lock-step correspondence on every run): that the reported path is the
+concatenation of the two chains both `isPathValid` calls just answered `true` for -- with `lbkpiece_isPathValid_complete`
+and `lbkpiece_valid_flag_sound` that gives "every consecutive pair of the reported path was answered valid by
+`checkMotion`, first state a valid start, last a valid goal sample" (`lbkpiece_solution_real`); missing is the lemma that
+`chainUp` after the second walk still lists the motions validated by the first (parents are framed, so it does). -/
+theorem lbkpiece_solution_real_partial (cfg : LBKPIECE1.Cfg S α) (starts : Array S) (script : List (LBKPIECE1.Draw S α)) :
+    ((LBKPIECE1.solve cfg starts script).status = .exactSolution ↔ (LBKPIECE1.solve cfg starts script).added.isSome = true) ∧
+    ((LBKPIECE1.solve cfg starts script).added.isSome = true →
+      (LBKPIECE1.solve cfg starts script).final.solved = (LBKPIECE1.solve cfg starts script).added) := by
+  unfold LBKPIECE1.solve
+  simp only []
+  split
+  · exact ⟨by simp, by simp⟩
+  · split
+    · exact ⟨by simp, by simp⟩
+    · split
+      · rename_i path hp
+        exact ⟨by simp, fun _ => hp⟩
+      · refine ⟨?_, by simp⟩
+        split <;> simp
+
+/-! non-vacuity -/
+example (cfg : LBKPIECE1.Cfg S α) (a b : S) (h : (cfg.checkMotion a b).1 = true) : LBKPIECE1.Link cfg a b := Or.inl h
+example (cfg : LBKPIECE1.Cfg S α) (script : List (LBKPIECE1.Draw S α)) :
+    (LBKPIECE1.solve cfg #[] script).status = .invalidStart := rfl
+
+end Lbkpiece
 
 end OmplModel.Props.C13
